@@ -785,7 +785,7 @@ func (h *hist) checkpointOf(b skywaytypes.InternalOutgoingTxBatch) []byte {
 	return cp
 }
 
-var confirmModes = []string{"valid", "valid", "valid", "valid", "garbage", "wrong-key", "other-validators-key", "replay-foreign", "duplicate", "stale", "foreign-orchestrator", "by-user", "other-chains-key"}
+var confirmModes = []string{"valid", "valid", "valid", "valid", "garbage", "wrong-key", "other-validators-key", "replay-foreign", "duplicate", "stale", "foreign-orchestrator", "by-user", "other-chains-key", "own-key-names-other-signer"}
 
 func (h *hist) mkConfirm(v *chain.Account, b skywaytypes.InternalOutgoingTxBatch, mode string) (*skywaytypes.MsgConfirmBatch, *chain.Account, *chain.Account) {
 	ch := b.ChainReferenceID
@@ -843,6 +843,16 @@ func (h *hist) mkConfirm(v *chain.Account, b skywaytypes.InternalOutgoingTxBatch
 		}
 		sig = world.EthSign(okey, cp)
 		m.EthSigner = common.HexToAddress(oi.Address).Hex()
+	case "own-key-names-other-signer":
+		// the signature is by v's registered key over the exact checkpoint, but the confirmation DECLARES another
+		// signer: another validator's registered address, or an address nobody has registered
+		sig = world.EthSign(key, cp)
+		_, w := h.twoVals()
+		if oi := h.infos[w.ValBech()][ch]; w != v && oi != nil && common.IsHexAddress(oi.Address) && h.r.Intn(2) == 0 && common.HexToAddress(oi.Address) != common.HexToAddress(own.Address) {
+			m.EthSigner = common.HexToAddress(oi.Address).Hex()
+		} else {
+			m.EthSigner = addrOf(newKey(fmt.Sprintf("declared/%d", h.r.Int63()))).Hex()
+		}
 	case "stale":
 		it := h.mon.batches[fmt.Sprintf("%s|%d", strings.ToLower(contract), b.BatchNonce)]
 		if it == nil || len(it.Versions) < 2 {
